@@ -44,7 +44,10 @@ class NearestBetterClustering:
         truncation_factor: float | None = 1.0,
         use_correction: bool | None = False,
     ) -> None:
-        sorted_individuals = sorted(evaluated_individuals, reverse=True)
+        # Individuals with equal fitness are ordered by genome, so that the result
+        # (the choice of the best one, and who survives truncation) does not depend on the input order.
+        canonical_individuals = sorted(evaluated_individuals, key=lambda ind: tuple(ind.genome))
+        sorted_individuals = sorted(canonical_individuals, reverse=True)
         self.individuals = sorted_individuals[: int(len(sorted_individuals) * truncation_factor)]
         self.tree = Tree()
         self.distance_factor = distance_factor
